@@ -1,6 +1,7 @@
 """C02 — parsing terminates with a tree or a parsing error, never a crash."""
 import json, re, sys, traceback
-from tools.harness import common, lr, gen, streams
+from tools.harness import common, lr, gen, streams, extra
+import itertools
 from tools.harness.common import DIALECTS
 
 ID = 'C02'
@@ -66,7 +67,10 @@ def run(chk):
     for d in DIALECTS:
         rng = common.rng_for(chk.seed, 'C02/' + d)
         R = lr.real(d)
-        for case in streams.statement_stream(d, rng, n_mut, n_sent):
+        fam = [c for f in extra.layout_variant_stream(d, rng, 20 if not deep else 300) for c in f]
+        more = itertools.chain(extra.append_terminal_stream(d, rng, 4 if not deep else 80), fam,
+                               extra.recase_stream(d, rng, 80 if not deep else 2000), extra.numeric_position_stream(d, rng))
+        for case in itertools.chain(streams.statement_stream(d, rng, n_mut, n_sent), more):
             text = case['text']
             s2 = re.sub(r'[\s;]+$', '', text)
             toks, bad = R.tokenize(s2)
@@ -102,7 +106,7 @@ def run(chk):
                 chk.fail(f)
         # quoted tokens with every short body over the characters that matter to the lexers and the un-escaping actions
         # (backslash, both quotes, back-quote, newline): literal at the end / followed by another literal / as a name
-        import itertools
+
         alpha = ['a', '\\', "'", '"', '`', '\n', ' ']
         bodies = [''.join(t) for n in (0, 1, 2, 3) for t in itertools.product(alpha, repeat=n)]
         if quick:
